@@ -73,6 +73,32 @@ func checkC11(c *Check) {
 				}
 			}
 		})
+		// the pop may live in a deferred literal registered before fn() (restores the scope on panic too)
+		deferredPop := false
+		allInstrs(g, func(in ssa.Instruction) {
+			d, ok := in.(*ssa.Defer)
+			if !ok {
+				return
+			}
+			mc, ok := strip(d.Call.Value).(*ssa.MakeClosure)
+			if !ok {
+				return
+			}
+			lit := mc.Fn.(*ssa.Function)
+			allInstrs(lit, func(x ssa.Instruction) {
+				st, ok := x.(*ssa.Store)
+				if !ok || fieldOf(strip(st.Addr)) != fGroups {
+					return
+				}
+				if sl, ok := strip(st.Val).(*ssa.Slice); ok && isGroups(sl.X) && sl.Low == nil && sl.High != nil && vBin(token.SUB, vLen(isGroups), vConstInt(1))(sl.High) {
+					if fnCall != nil {
+						if ok2, _ := mustPrecede(g, isInstr(in), fnCall); ok2 {
+							deferredPop = true
+						}
+					}
+				}
+			})
+		})
 		if fnCall == nil || len(push) == 0 {
 			c.Bad(key+":push-before-fn", p.FuncPos(g), "Group does not push a group and call fn")
 		} else {
@@ -89,7 +115,9 @@ func checkC11(c *Check) {
 					twice = true
 				}
 			}
-			if ok && len(pop) > 0 && !twice {
+			if deferredPop && len(pop) == 0 {
+				c.OK(key+":pop-after-fn", p.Pos(fnCall.Pos()), "groups = groups[:len-1] in a literal deferred before fn() (also runs when fn panics)", numInstrs(g))
+			} else if ok && len(pop) > 0 && !twice {
 				c.OK(key+":pop-after-fn", p.Pos(fnCall.Pos()), "groups = groups[:len-1] on every path after fn(), once", numInstrs(g))
 			} else {
 				c.Bad(key+":pop-after-fn", p.Pos(fnCall.Pos()), "leaving a group does not restore the enclosing scope (pop missing, not last-only, or repeated)", path)
@@ -97,7 +125,7 @@ func checkC11(c *Check) {
 		}
 		// no other writer of the stack
 		for _, u := range p.FieldUses(fGroups) {
-			if u.Kind == "store" && u.Fn != g && !u.Fresh {
+			if u.Kind == "store" && u.Fn != g && u.Fn.Parent() != g && !u.Fresh {
 				c.Bad(p.FuncKey(u.Fn)+":groups-store", p.Pos(u.Instr.Pos()), "the group stack is modified outside Group()")
 			}
 		}
